@@ -106,3 +106,14 @@ Proof.
   exists {| o_simplify := false; o_notations := [equiv_pinned_nt]; o_syms := [] |}, [120;49]%N, [120;51]%N.
   split; [discriminate|]. vm_compute. repeat split; reflexivity.
 Qed.
+
+(** D17: distinguishing is a theorem for ONE differing position only.  With several, a bracket-less format is
+    ambiguous under self-nesting: kore.in_sort's '{0}:{1}' prints  a : (b : c)  and  (a : b) : c  alike. *)
+Theorem C19_refuted_ambiguous_nesting :
+  exists fmt args args' s, has_hole fmt 0%N = true /\ has_hole fmt 1%N = true /\
+    nth_error args 0 <> nth_error args' 0 /\ nth_error args 1 <> nth_error args' 1 /\
+    format fmt args = Some s /\ format fmt args' = Some s.
+Proof.
+  exists [Hole 0; Lit [58%N]; Hole 1], [[97]; [98;58;99]]%N, [[97;58;98]; [99]]%N, [97;58;98;58;99]%N.
+  vm_compute. repeat split; try reflexivity; discriminate.
+Qed.
